@@ -211,6 +211,18 @@ def _worker(items, base):
                                                   "title": "InnerTxnBuilder.MethodCall with parameter type %s %s an argument of type %s although assignable=%s" % (
                                                       b, "accepts" if acc2 else "rejects", a, asg),
                                                   "a": str(a), "b": str(b), "ia": i, "ib": j, "features": {"why": "callsite-itxn"}})
+            # assignment sites: B().set(<value of type A>) - if PyTeal builds it, the layouts must agree
+            # (a 1-tuple assembled from its single component is construction from parts, not assignment)
+            if norm(a)[0] not in ("ref", "txn") and norm(b)[0] not in ("ref", "txn"):
+                acc3 = set_site_accepts(a, b)
+                if acc3 is not None:
+                    cnt["set_sites"] = cnt.get("set_sites", 0) + 1
+                    oc["set_site_accepted" if acc3 else "set_site_refused"] = oc.get("set_site_accepted" if acc3 else "set_site_refused", 0) + 1
+                    from_part = norm(b)[0] == "tuple" and len(norm(b)) == 2 and norm(b)[1] == norm(a)
+                    if acc3 and not lay and not from_part:
+                        out["violations"].append({"driver": "setsite", "size": 1,
+                                                  "title": "%s().set(<%s value>) is accepted although their ARC-4 layouts differ" % (b, a),
+                                                  "a": str(a), "b": str(b), "ia": i, "ib": j, "features": {"why": "setsite"}})
         cnt["states"] = cnt.get("states", 0) + 1
         cnt["transitions"] = cnt.get("transitions", 0) + len(U)
     if items and base % 97 == 0:
@@ -235,6 +247,21 @@ def call_site_accepts(a, b):
         return True
     except (pt.TealInputError, pt.TealTypeError):
         return False
+
+
+def set_site_accepts(a, b):
+    """does B().set(x) build for an ABI value x of type a?"""
+    try:
+        bi, ai = b.new_instance(), a.new_instance()
+    except Exception:
+        return None
+    try:
+        bi.set(ai)
+        return True
+    except (pt.TealInputError, pt.TealTypeError):
+        return False
+    except (TypeError, AttributeError):
+        return None   # set() of this type does not take a single ABI value
 
 
 def method_call_accepts(a, b):
@@ -290,4 +317,12 @@ def replay(case):
             acc = call_site_accepts(a, b)
             if acc is not None and acc != asg:
                 bad = True
+            if norm(a)[0] not in ("ref", "txn") and norm(b)[0] not in ("ref", "txn"):
+                acc2 = method_call_accepts(a, b)
+                if acc2 is not None and acc2 != asg:
+                    bad = True
+                from_part = norm(b)[0] == "tuple" and len(norm(b)) == 2 and norm(b)[1] == norm(a)
+                if set_site_accepts(a, b) and not same_layout(a, b) and not from_part:
+                    print("set site accepts")
+                    bad = True
     return bad
